@@ -39,6 +39,9 @@ func EncodeToStringNoPadding(data []byte) string {
 // This accepts the standard I2P .b32.i2p address format (52 unpadded characters
 // for a 32-byte hash).
 func DecodeStringNoPadding(data string) ([]byte, error) {
+	if err := checkNoPaddingBytes(data); err != nil {
+		return nil, err
+	}
 	return I2PEncodingNoPadding.DecodeString(data)
 }
 
@@ -83,7 +86,7 @@ func DecodeStringSafeNoPadding(data string) ([]byte, error) {
 	if len(data) > MAX_DECODE_SIZE {
 		return nil, ErrInputTooLarge
 	}
-	return I2PEncodingNoPadding.DecodeString(data)
+	return DecodeStringNoPadding(data)
 }
 
 // checkPaddingIsTrailing rejects input in which anything other than padding (or the CR/LF
@@ -97,6 +100,18 @@ func checkPaddingIsTrailing(data string) error {
 		case c == '=':
 			seenPadding = true
 		case seenPadding:
+			return b32.CorruptInputError(i)
+		}
+	}
+	return nil
+}
+
+// checkNoPaddingBytes rejects the byte 0xFF in unpadded input. With padding disabled,
+// encoding/base32 compares each input byte with byte(NoPadding), which is 0xFF, and so
+// treats 0xFF bytes at the end of the input as padding instead of reporting them.
+func checkNoPaddingBytes(data string) error {
+	for i := 0; i < len(data); i++ {
+		if data[i] == 0xFF {
 			return b32.CorruptInputError(i)
 		}
 	}
